@@ -656,9 +656,9 @@ struct WkdScenario : Scenario {
             }
             else if (kind == "DEC") p.ops.push_back({kind, {(int64_t) r.below(64), (int64_t) r.below(64)}, {}});
             else if (kind == "DECM") p.ops.push_back({kind, {(int64_t) r.below(64)}, {}});
-            else if (kind == "SIGN") { Op o{kind, {ss, (int64_t) r.below(64), r.chance(1, 4) ? (int64_t) (100 + r.below(1000)) : (int64_t) r.below(11), r.chance(1, 2), r.chance(1, 5) ? r.range(1, 2) : 0}, directives(r, l)}; maybe_fault(o); p.ops.push_back(o); }
+            else if (kind == "SIGN") { Op o{kind, {ss, (int64_t) r.below(64), r.chance(1, 4) ? (int64_t) (100 + r.below(1000)) : (int64_t) r.below(value_codes().size()), r.chance(1, 2), r.chance(1, 5) ? r.range(1, 2) : 0}, directives(r, l)}; maybe_fault(o); p.ops.push_back(o); }
             else if (kind == "VERIFY") p.ops.push_back({kind, {(int64_t) r.below(64), (int64_t) r.below(9), (int64_t) r.below(64)}, {}});
-            else if (kind == "ATTACK") p.ops.push_back({kind, {ss, (int64_t) r.below(64), (int64_t) r.below(4), (int64_t) r.below(11), (int64_t) r.below(8)}, {}});
+            else if (kind == "ATTACK") p.ops.push_back({kind, {ss, (int64_t) r.below(64), (int64_t) r.below(4), (int64_t) r.below(value_codes().size()), (int64_t) r.below(8)}, {}});
             else if (kind == "TAMPERCT") p.ops.push_back({kind, {(int64_t) r.below(64), (int64_t) r.below(3)}, {}});
             else if (kind == "HOP") p.ops.push_back(WkdRun::gen_hop(r));
         }
